@@ -4,7 +4,7 @@ use std::{
     sync::{Arc, Mutex},
 };
 
-use simcore::{alloc, panics};
+use simcore::alloc;
 
 #[derive(Clone, Copy, Debug, Default, PartialEq)]
 pub struct Cost {
@@ -16,7 +16,56 @@ pub struct Cost {
 #[derive(Clone, Debug)]
 pub struct PanicInfo {
     pub message: String,
+    /// `file:line` reported by the panic itself (`/repo/` stripped)
     pub location: String,
+    /// raised by a line of this crate, not by the code under test
+    pub in_harness: bool,
+}
+
+pub const PROBE_THREAD: &str = "byzsim-probe";
+
+thread_local! {
+    static LAST_PANIC: RefCell<Option<PanicInfo>> = const { RefCell::new(None) };
+}
+
+/// Panics on probe threads are recorded by message and location only. simcore's process-wide hook captures and
+/// symbolises a backtrace for every panic (seconds for the first ones, tens of milliseconds later, under a
+/// global lock); a handler chain that panics on one probe in seven would spend the whole budget there and trip
+/// the 5 s watchdog. Every other thread keeps simcore's hook.
+pub fn install_hook() {
+    static ONCE: std::sync::Once = std::sync::Once::new();
+    ONCE.call_once(|| {
+        simcore::panics::install();
+        let prev = std::panic::take_hook();
+        std::panic::set_hook(Box::new(move |info| {
+            if std::thread::current().name() == Some(PROBE_THREAD) {
+                let message = if let Some(s) = info.payload().downcast_ref::<&str>() {
+                    s.to_string()
+                } else if let Some(s) = info.payload().downcast_ref::<String>() {
+                    s.clone()
+                } else {
+                    "<non-string panic>".to_string()
+                };
+                let loc = info.location().map(|l| format!("{}:{}", l.file(), l.line())).unwrap_or_default();
+                let in_harness = loc.contains("crates/byzsim/") || loc.contains("crates/simcore/");
+                let location = loc.strip_prefix("/repo/").unwrap_or(&loc).to_string();
+                LAST_PANIC.with(|p| *p.borrow_mut() = Some(PanicInfo { message, location, in_harness }));
+            } else {
+                prev(info);
+            }
+        }));
+    });
+}
+
+/// Run `f` on a probe thread, returning its value or the record of the panic that ended it.
+pub fn guarded<R>(f: impl FnOnce() -> R) -> Result<R, PanicInfo> {
+    LAST_PANIC.with(|p| p.borrow_mut().take());
+    match std::panic::catch_unwind(std::panic::AssertUnwindSafe(f)) {
+        Ok(r) => Ok(r),
+        Err(_) => Err(LAST_PANIC
+            .with(|p| p.borrow_mut().take())
+            .unwrap_or(PanicInfo { message: "<panic without record>".into(), location: String::new(), in_harness: false })),
+    }
 }
 
 #[derive(Clone, Debug)]
@@ -29,6 +78,21 @@ pub struct HandlerRun {
 thread_local! {
     /// name of the handler currently running on this thread, shared with the watchdog
     static CURRENT: RefCell<Option<Arc<Mutex<&'static str>>>> = const { RefCell::new(None) };
+    /// confirmation runs only need the chain up to one handler: (stop after this one, already stopped)
+    static STOP_AFTER: RefCell<(Option<&'static str>, bool)> = const { RefCell::new((None, false)) };
+    /// the forged frame is being handled (the history before it is never cut short)
+    static ARMED: RefCell<bool> = const { RefCell::new(false) };
+}
+
+/// `true` right before the forged frame is handed to the chain, `false` at the start of every probe
+pub fn arm(on: bool) {
+    ARMED.with(|a| *a.borrow_mut() = on);
+    STOP_AFTER.with(|s| s.borrow_mut().1 = false);
+}
+
+/// `Some(name)`: the handlers after `name` are skipped (they report `None`, like a handler that did not return)
+pub fn set_stop_after(name: Option<&'static str>) {
+    STOP_AFTER.with(|s| *s.borrow_mut() = (name, false));
 }
 
 pub fn share_current(slot: Arc<Mutex<&'static str>>) {
@@ -45,10 +109,21 @@ fn publish(name: &'static str) {
 
 /// Run `f` as handler `name`: returns its value (None if it panicked) and appends the metered run.
 pub fn handler<T>(runs: &mut Vec<HandlerRun>, name: &'static str, f: impl FnOnce() -> T) -> Option<T> {
+    if ARMED.with(|a| *a.borrow()) {
+        if STOP_AFTER.with(|s| s.borrow().1) {
+            return None;
+        }
+        STOP_AFTER.with(|s| {
+            let mut s = s.borrow_mut();
+            if s.0 == Some(name) {
+                s.1 = true;
+            }
+        });
+    }
     publish(name);
     let m = alloc::mark();
     let t0 = alloc::thread_cpu_ns();
-    let r = panics::guarded(f);
+    let r = guarded(f);
     let cpu_ns = alloc::thread_cpu_ns().saturating_sub(t0);
     let a = alloc::since(m);
     publish("-");
@@ -57,20 +132,16 @@ pub fn handler<T>(runs: &mut Vec<HandlerRun>, name: &'static str, f: impl FnOnce
             runs.push(HandlerRun { name, cost: Cost { alloc: a.bytes, calls: a.calls, cpu_ns }, panic: None });
             Some(v)
         }
-        Err(rec) => {
-            // the cost of a panicking call includes the backtrace capture: not judged
-            runs.push(HandlerRun { name, cost: Cost::default(), panic: Some(PanicInfo { message: rec.message.clone(), location: short_location(&rec.location) }) });
+        Err(mut rec) => {
+            // the cost of a panicking call is not judged
             if rec.in_harness {
                 // a panic raised by harness code inside the closure is a harness fault, surfaced by the caller
-                runs.last_mut().unwrap().panic.as_mut().unwrap().message.insert_str(0, "[HARNESS] ");
+                rec.message.insert_str(0, "[HARNESS] ");
             }
+            runs.push(HandlerRun { name, cost: Cost::default(), panic: Some(rec) });
             None
         }
     }
-}
-
-fn short_location(l: &str) -> String {
-    l.strip_prefix("/repo/").unwrap_or(l).to_string()
 }
 
 // thresholds of the work oracle (DESIGN §5 C04) ------------------------------------------------------
